@@ -9,6 +9,7 @@ import (
 	"math"
 	"sort"
 	"strings"
+	"sync"
 
 	"golang.org/x/tools/go/packages"
 	"golang.org/x/tools/go/ssa"
@@ -131,24 +132,25 @@ type Oblig struct {
 }
 
 type Run struct {
-	eng     *Engine
-	ctx     *Ctx
-	heap    *Heap
-	obls    []*Oblig
-	prop    string // active property tag ("" = every clause)
-	safety  bool   // generate Go safety obligations
-	dry     int
-	unsup   []string
-	fld     map[string]bool
-	globals map[string]string
-	typeTag map[string]int
-	assumed map[string]bool // names of assumed (extern / modelled) callees
-	inlined map[string]bool
-	fnConst map[*ssa.Function]string
-	axioms  []string
-	top     *Frame
-	oblSeen map[string]int
+	eng       *Engine
+	ctx       *Ctx
+	heap      *Heap
+	obls      []*Oblig
+	prop      string // active property tag ("" = every clause)
+	safety    bool   // generate Go safety obligations
+	dry       int
+	unsup     []string
+	fld       map[string]bool
+	globals   map[string]string
+	typeTag   map[string]int
+	assumed   map[string]bool // names of assumed (extern / modelled) callees
+	inlined   map[string]bool
+	fnConst   map[*ssa.Function]string
+	axioms    []string
+	top       *Frame
+	oblSeen   map[string]int
 	allocRefs map[string]bool
+	mu        sync.Mutex
 	faults    bool // BitsWriter model: sink writes may fail (C18); otherwise they succeed and contents are exact
 }
 
@@ -215,6 +217,7 @@ type deferRec struct {
 type retRec struct {
 	st   *State
 	vals []Value
+	pos  string
 }
 
 type loopInfo struct {
